@@ -1386,3 +1386,434 @@ def s_hashset_insert(ex, st, call):
         v.data['items'].append(Cell(call.args[1]))
         return z3.Bool(f'inserted!{next(st.fresh)}')
     return NotImplemented
+
+
+# =============================================================================== identity-keyed maps (HashMap<Keyspace, _> etc.)
+def canon_id(v):
+    """identity of a handle value: follows Refs, newtype field 0 and Arc pointers down to the shared pointee"""
+    seen = 0
+    while seen < 8:
+        seen += 1
+        v = deref(v)
+        if isinstance(v, Obj):
+            if 'ptr' in v.fields and v.fields['ptr'].val is not None:
+                v = v.fields['ptr'].val; continue
+            if v.kind in ('struct', 'opaque') and set(v.fields.keys()) == {0} and isinstance(deref(v.fields[0].val), Obj) and \
+                    (base_name(v.ty) in ('Keyspace', 'Database', 'Snapshot', 'SnapshotTracker', 'Supervisor', 'OptimisticTxKeyspace', 'SingleWriterTxKeyspace')):
+                v = v.fields[0].val; continue
+            return ('obj', v.uid)
+        break
+    if z3.is_expr(v):
+        return ('val', str(z3.simplify(v)))
+    return ('id', id(v))
+
+
+def _map_entries(m):
+    return m.data.setdefault('entries', {})
+
+
+def map_lookup(ex, st, m, key, val_ty, create_symbolic=True):
+    """returns (present: z3 Bool, cell)"""
+    ents = _map_entries(m)
+    k = canon_id(key)
+    e = ents.get(k)
+    if e is None:
+        if m.data.get('known_empty') or not create_symbolic:
+            e = [z3.BoolVal(False), Cell(None), key]
+        else:
+            e = [z3.Bool(f'has:{m.name}[{k[1]}]!{next(st.fresh)}'), Cell(ex.fresh(st, val_ty, f'{m.name}[{k[1]}]')), key]
+        ents[k] = e
+    return e
+
+
+@rule(r'^(std::collections::)?HashMap::(get|get_mut|contains_key|remove|insert)$', r'^(std::collections::)?BTreeMap::(get|get_mut|contains_key|remove)$')
+def s_map_get(ex, st, call):
+    m = deref(call.args[0])
+    if not isinstance(m, Obj):
+        return NotImplemented
+    kind = call.c0.rsplit('::', 1)[-1]
+    ga = generic_args(m.ty)
+    vty = ga[1] if len(ga) > 1 else ''
+    e = map_lookup(ex, st, m, call.args[1], vty)
+    st.emit(Ev('MAP_' + kind.upper(), obj=m, args={'key': deref(call.args[1])}, site=call.site))
+    if kind in ('get', 'get_mut'):
+        r = EnumV(call.dst_ty, z3.If(e[0], bv(1), bv(0)), 'mapget')
+        o = Obj('Some', 'Some', 'variant'); o.fields[0] = Cell(Ref(e[1])); r.payloads['Some'] = o
+        return r
+    if kind == 'contains_key':
+        return e[0]
+    if kind == 'remove':
+        r = EnumV(call.dst_ty, z3.If(e[0], bv(1), bv(0)), 'mapremoved')
+        o = Obj('Some', 'Some', 'variant'); o.fields[0] = Cell(e[1].val); r.payloads['Some'] = o
+        e[0] = z3.BoolVal(False); e[1] = Cell(None)
+        return r
+    if kind == 'insert':
+        old_present, old_cell = e[0], e[1]
+        r = EnumV(call.dst_ty, z3.If(old_present, bv(1), bv(0)), 'mapold')
+        o = Obj('Some', 'Some', 'variant'); o.fields[0] = Cell(old_cell.val); r.payloads['Some'] = o
+        e[0] = z3.BoolVal(True); e[1] = Cell(call.args[2])
+        return r
+    return NotImplemented
+
+
+@rule(r'^(std::collections::)?HashMap::entry$', r'^(std::collections::)?BTreeMap::entry$')
+def s_map_entry(ex, st, call):
+    m = deref(call.args[0])
+    if not isinstance(m, Obj):
+        return NotImplemented
+    ga = generic_args(m.ty)
+    e = map_lookup(ex, st, m, call.args[1], ga[1] if len(ga) > 1 else '')
+    o = Obj(call.dst_ty, 'entry', 'opaque'); o.data['entry'] = e; o.data['map'] = m; o.data['key'] = call.args[1]
+    return o
+
+
+@rule(r'^(std::collections::hash_map::|std::collections::btree_map::)?Entry::(or_insert_with|or_insert|or_default)$')
+def s_entry_or_insert(ex, st, call):
+    en = deref(call.args[0])
+    if not isinstance(en, Obj) or 'entry' not in en.data:
+        return NotImplemented
+    e = en.data['entry']
+    kind = call.c0.rsplit('::', 1)[-1]
+    out = []
+    for s2, present, kept in fork_cond(ex, st, e[0], [en] + list(call.args[1:])):
+        en2 = kept[0]; e2 = en2.data['entry']
+        if present:
+            out.append((s2, Ref(e2[1])))
+            continue
+        if kind == 'or_insert':
+            e2[0] = z3.BoolVal(True); e2[1].val = kept[1]
+            s2.emit(Ev('MAP_INSERT', obj=en2.data['map'], args={'key': deref(en2.data['key']), 'val': kept[1]}, site=call.site))
+            out.append((s2, Ref(e2[1])))
+        elif kind == 'or_default':
+            e2[0] = z3.BoolVal(True); e2[1].val = default_value(ex, s2, strip_ref(call.dst_ty) or '')
+            out.append((s2, Ref(e2[1])))
+        else:
+            for s3, v in ex.call_closure(s2, kept[1], []):
+                if s3.status != 'running':
+                    out.append((s3, None)); continue
+                en3 = en2 if s3 is s2 else _relocate(ex, s3, en2)
+                e3 = en3.data['entry']
+                e3[0] = z3.BoolVal(True); e3[1].val = v
+                s3.emit(Ev('MAP_INSERT', obj=en3.data['map'], args={'key': deref(en3.data['key']), 'val': v}, site=call.site))
+                out.append((s3, Ref(e3[1])))
+    return out
+
+
+@rule(r'^(std::collections::)?(HashMap|BTreeMap)::(is_empty|len)$')
+def s_map_is_empty(ex, st, call):
+    m = deref(call.args[0])
+    if not isinstance(m, Obj):
+        return NotImplemented
+    kind = call.c0.rsplit('::', 1)[-1]
+    ents = _map_entries(m)
+    if 'items' in m.data:
+        return z3.BoolVal(len(m.data['items']) == 0) if kind == 'is_empty' else bv(len(m.data['items']))
+    some = z3.Or(*[e[0] for e in ents.values()]) if ents else z3.BoolVal(False)
+    if m.data.get('known_empty'):
+        return z3.Not(some) if kind == 'is_empty' else ex.fresh(st, 'usize', 'maplen')
+    if kind == 'len':
+        return ex.fresh(st, 'usize', 'maplen')
+    # unknown other entries may exist: empty ⇒ none of the known ones is present
+    v = z3.Bool(f'empty:{m.name}!{next(st.fresh)}')
+    st.pc.append(z3.Implies(v, z3.Not(some)))
+    return v
+
+
+@rule(r'^<(std::collections::)?HashMap<.*> as Default>::default$', r'^(std::collections::)?(HashMap|BTreeMap)::(new|default|with_hasher)$',
+      r'^<(std::collections::)?BTreeMap<.*> as Default>::default$')
+def s_map_new(ex, st, call):
+    o = Obj(call.dst_ty, 'map', 'opaque'); o.data['known_empty'] = True; o.data['entries'] = {}
+    return o
+
+
+# =============================================================================== lsm-tree memtable / internal values
+@rule(r'^(lsm_tree::)?(Memtable|memtable::Memtable)::(new|get|insert|iter|size|id|is_empty|len|range)$')
+def s_memtable(ex, st, call):
+    kind = call.c0.rsplit('::', 1)[-1]
+    if kind == 'new':
+        o = Obj('lsm_tree::Memtable', 'memtable', 'opaque'); o.data['mt_items'] = []
+        st.emit(Ev('MT_NEW', obj=o, site=call.site))
+        return o
+    mt = deref(call.args[0])
+    if not isinstance(mt, Obj):
+        return NotImplemented
+    if kind == 'insert':
+        iv = deref(call.args[1])
+        st.emit(Ev('MT_INSERT', obj=mt, args={'item': iv, **(iv.data.get('iv', {}) if isinstance(iv, Obj) else {})}, site=call.site))
+        r = Obj(call.dst_ty, 'sizes', 'tuple')
+        r.fields[0] = Cell(ex.fresh(st, 'u64', 'item_size')); r.fields[1] = Cell(ex.fresh(st, 'u64', 'mt_size'))
+        return r
+    if kind == 'get':
+        res = ex.fresh(st, call.dst_ty, 'mtget')
+        st.emit(Ev('MT_GET', obj=mt, args={'key': deref(call.args[1]), 'seqno': call.args[2]}, res=res, site=call.site))
+        return res
+    res = ex.fresh(st, call.dst_ty, 'mt_' + kind)
+    st.emit(Ev('MT_' + kind.upper(), obj=mt, res=res, site=call.site))
+    return res
+
+
+@rule(r'^(lsm_tree::)?InternalValue::(from_components|new_tombstone|new_weak_tombstone|is_tombstone)$',
+      r'^(lsm_tree::)?(InternalKey|key::InternalKey)::(is_tombstone|new)$')
+def s_internal_value(ex, st, call):
+    kind = call.c0.rsplit('::', 1)[-1]
+    if kind == 'is_tombstone':
+        v = deref(call.args[0])
+        if isinstance(v, Obj):
+            t = v.data.get('is_tombstone')
+            if t is None:
+                t = z3.Bool(f'is_tombstone:{v.name}!{next(st.fresh)}'); v.data['is_tombstone'] = t
+            return t
+        return NotImplemented
+    o = Obj('lsm_tree::InternalValue', 'ivalue', 'opaque')
+    a = call.args
+    if kind == 'from_components':
+        o.data['iv'] = {'key': deref(a[0]), 'value': deref(a[1]), 'seqno': a[2], 'vtype': a[3]}
+        vt = a[3]
+        if isinstance(vt, EnumV):
+            o.data['is_tombstone'] = z3.Not(_disc_is(vt, 0))
+    elif kind == 'new_tombstone':
+        o.data['iv'] = {'key': deref(a[0]), 'value': None, 'seqno': a[1], 'vtype': 'Tombstone'}
+        o.data['is_tombstone'] = z3.BoolVal(True)
+    elif kind == 'new_weak_tombstone':
+        o.data['iv'] = {'key': deref(a[0]), 'value': None, 'seqno': a[1], 'vtype': 'WeakTombstone'}
+        o.data['is_tombstone'] = z3.BoolVal(True)
+    return o
+
+
+# =============================================================================== DashMap (snapshot tracker): bounded slot model
+DASHMAP_SLOTS = 3
+
+
+def dm_slots(ex, st, m):
+    s = m.data.get('slots')
+    if s is None:
+        n = m.data.get('nslots', DASHMAP_SLOTS)
+        s = []
+        for i in range(n):
+            s.append({'key': z3.BitVec(f'dm:{m.name}.k{i}', 64), 'val': z3.BitVec(f'dm:{m.name}.v{i}', 64),
+                      'present': z3.Bool(f'dm:{m.name}.p{i}')})
+        # representation invariant: present keys are pairwise distinct
+        for i in range(n):
+            for j in range(i + 1, n):
+                st.pc.append(z3.Implies(z3.And(s[i]['present'], s[j]['present']), s[i]['key'] != s[j]['key']))
+        m.data['slots'] = s
+        m.data['pre_slots'] = [dict(x) for x in s]
+    return s
+
+
+def dm_lookup(slots, k):
+    present = z3.Or(*[z3.And(s['present'], s['key'] == k) for s in slots])
+    val = bv(0)
+    for s in reversed(slots):
+        val = z3.If(z3.And(s['present'], s['key'] == k), s['val'], val)
+    return present, val
+
+
+@rule(r'^(dashmap::)?DashMap::(entry|alter|retain|is_empty|len|iter|default|new|with_hasher|insert|remove|get)$', r'^<(dashmap::)?DashMap<.*> as Default>::default$')
+def s_dashmap(ex, st, call):
+    kind = call.c0.rsplit('::', 1)[-1]
+    if kind in ('default', 'new', 'with_hasher'):
+        o = Obj(call.dst_ty, 'dashmap', 'opaque')
+        o.data['slots'] = [{'key': bv(0), 'val': bv(0), 'present': z3.BoolVal(False)} for _ in range(DASHMAP_SLOTS)]
+        return o
+    m = deref(call.args[0])
+    if not isinstance(m, Obj):
+        return NotImplemented
+    slots = dm_slots(ex, st, m)
+    if kind == 'entry':
+        k = as_bv64(call.args[1])
+        e = Obj(call.dst_ty, 'dm_entry', 'opaque'); e.data['dm'] = m; e.data['key'] = k
+        return e
+    if kind == 'is_empty':
+        r = z3.Not(z3.Or(*[s['present'] for s in slots]))
+        st.emit(Ev('DM_IS_EMPTY', obj=m, res=r, site=call.site))
+        return r
+    if kind == 'len':
+        tot = bv(0)
+        for s in slots:
+            tot = tot + z3.If(s['present'], bv(1), bv(0))
+        return tot
+    if kind == 'alter':
+        k = as_bv64(deref(call.args[1]))
+        present, val = dm_lookup(slots, k)
+        clo = call.args[2]
+        out = []
+        kref = Ref(Cell(k))
+        for s2, v in ex.call_closure(st, clo, [kref, val]):
+            if s2.status != 'running':
+                out.append((s2, None)); continue
+            m2 = m if s2 is st else _relocate(ex, s2, m)
+            for s in m2.data['slots']:
+                s['val'] = z3.If(z3.And(s['present'], s['key'] == k), as_bv64(v), s['val'])
+            s2.emit(Ev('DM_ALTER', obj=m2, args={'key': k, 'old': val, 'new': as_bv64(v), 'present': present}, site=call.site))
+            out.append((s2, ex.unit()))
+        return out
+    if kind == 'retain':
+        clo = call.args[1]
+        states = [(st, m, clo)]
+        n = len(slots)
+        for i in range(n):
+            nxt = []
+            for s2, m2, clo2 in states:
+                if s2.status != 'running':
+                    nxt.append((s2, m2, clo2)); continue
+                sl = m2.data['slots'][i]
+                # cells captured by &mut in the closure environment: their updates are guarded by present_i
+                cobj = deref(clo2)
+                caps = [deref_cell(c.val) for c in cobj.fields.values()] if isinstance(cobj, Obj) else []
+                caps = [c for c in caps if c is not None]
+                before = [c.val for c in caps]
+                holder = Obj('', 'h'); holder.fields[0] = Cell(m2); holder.fields[1] = Cell(clo2)
+                for j, c in enumerate(caps):
+                    holder.fields[10 + j] = c
+                s2.globals['__retain'] = holder
+                vcell = Cell(sl['val'])
+                for s3, keep in ex.call_closure(s2, clo2, [Ref(Cell(sl['key'])), Ref(vcell)]):
+                    h3 = s3.globals.pop('__retain', None)
+                    if s3.status != 'running' or h3 is None:
+                        nxt.append((s3, None, None)); continue
+                    m3 = h3.fields[0].val; clo3 = h3.fields[1].val
+                    sl3 = m3.data['slots'][i]
+                    caps3 = [h3.fields[10 + j] for j in range(len(caps))]
+                    for c3, b in zip(caps3, before):
+                        c3.val = ite_value(sl3['present'], c3.val, b)
+                    s3.emit(Ev('DM_RETAIN_VISIT', obj=m3, args={'slot': i, 'key': sl3['key'], 'val': sl3['val'], 'present': sl3['present'], 'keep': keep}, site=call.site))
+                    sl3['present'] = z3.And(sl3['present'], keep)
+                    nxt.append((s3, m3, clo3))
+            states = nxt
+        return [(s2, ex.unit() if s2.status == 'running' else None) for s2, _m, _c in states]
+    if kind == 'iter':
+        o = Obj(call.dst_ty, 'dm_iter', 'opaque')
+        return o
+    return NotImplemented
+
+
+def deref_cell(v):
+    """cell a captured reference points to (None for by-value captures)"""
+    if isinstance(v, Ref):
+        return v.cell
+    return None
+
+
+@rule(r'^(dashmap::mapref::entry::)?Entry::(and_modify|or_insert)$', r'^dashmap::.*Entry.*::(and_modify|or_insert)$')
+def s_dm_entry(ex, st, call):
+    e = deref(call.args[0])
+    if not isinstance(e, Obj) or 'dm' not in e.data:
+        return NotImplemented
+    kind = call.c0.rsplit('::', 1)[-1]
+    m = e.data['dm']; k = e.data['key']
+    slots = dm_slots(ex, st, m)
+    present, val = dm_lookup(slots, k)
+    if kind == 'and_modify':
+        out = []
+        cell = Cell(val)
+        holder = Obj('', 'h'); holder.fields[0] = Cell(e); holder.fields[1] = cell
+        st.globals['__dm_am'] = holder
+        for s2, _v in ex.call_closure(st, call.args[1], [Ref(cell)]):
+            h2 = s2.globals.pop('__dm_am', None)
+            if s2.status != 'running' or h2 is None:
+                out.append((s2, None)); continue
+            e2 = h2.fields[0].val; newv = h2.fields[1].val
+            m2 = e2.data['dm']
+            for s in m2.data['slots']:
+                s['val'] = z3.If(z3.And(s['present'], s['key'] == k), as_bv64(newv), s['val'])
+            e2.data['was_present'] = present
+            s2.emit(Ev('DM_AND_MODIFY', obj=m2, args={'key': k, 'old': val, 'new': as_bv64(newv), 'present': present}, site=call.site))
+            out.append((s2, e2))
+        return out
+    if kind == 'or_insert':
+        x = as_bv64(call.args[1])
+        was = e.data.get('was_present', present)
+        # insert into the first free slot when the key is absent; a full map is outside the bound
+        free_before = z3.BoolVal(True)
+        full = z3.And(*[s['present'] for s in slots])
+        st.pc.append(z3.Or(was, z3.Not(full)))       # bound: at most len(slots) distinct instants are open at once
+        taken = z3.BoolVal(False)
+        for s in slots:
+            use = z3.And(z3.Not(was), z3.Not(s['present']), z3.Not(taken))
+            s['key'] = z3.If(use, k, s['key']); s['val'] = z3.If(use, x, s['val'])
+            newp = z3.Or(s['present'], use)
+            taken = z3.Or(taken, use)
+            s['present'] = newp
+        st.emit(Ev('DM_OR_INSERT', obj=m, args={'key': k, 'val': x, 'present': was}, site=call.site))
+        return ex.fresh(st, call.dst_ty, 'refmut')
+    return NotImplemented
+
+
+# =============================================================================== closures through the Fn* traits
+@rule(r'^<.* as (FnOnce|FnMut|Fn)<.*>>::(call_once|call_mut|call)$', prio=-1)
+def s_fn_call(ex, st, call):
+    f = call.args[0]
+    tup = call.args[1] if len(call.args) > 1 else None
+    args = []
+    if isinstance(tup, Obj) and tup.kind == 'tuple':
+        args = [tup.fields[i].val for i in sorted(k for k in tup.fields if isinstance(k, int))]
+    target = deref(f) if isinstance(f, Ref) else f
+    if isinstance(target, (FnItem,)) or (isinstance(target, Obj) and target.kind == 'closure'):
+        out = []
+        for s2, v in ex.call_closure(st, f, args):
+            out.append((s2, v))
+        return out
+    # an unknown callable (generic F supplied by the caller): observable event + havoc'd result
+    res = ex.fresh(st, call.dst_ty, 'fnres')
+    st.emit(Ev('CALL_FN', args={'f': target, 'args': args}, res=res, site=call.site))
+    return res
+
+
+@rule(r'^Option::(map_or|map_or_else)$', r'^(std::result::)?Result::(map_or|map_or_else)$')
+def s_map_or(ex, st, call):
+    r = _as_enum(ex, st, call.args[0])
+    if not isinstance(r, EnumV):
+        return NotImplemented
+    kind = call.c0.rsplit('::', 1)[-1]
+    is_opt = base_name(r.ty) == 'Option' or call.c0.startswith('Option')
+    okd, okvar = (1, 'Some') if is_opt else (0, 'Ok')
+    out = []
+    for s2, ok, kept in fork_cond(ex, st, _disc_is(r, okd), [r, call.args[1], call.args[2]]):
+        if ok:
+            pv = _payload(ex, s2, kept[0], okvar)
+            for s3, v in ex.call_closure(s2, kept[2], [pv]):
+                out.append((s3, v))
+        elif kind == 'map_or':
+            out.append((s2, kept[1]))
+        else:
+            args = [] if is_opt else [_payload(ex, s2, kept[0], 'Err')]
+            for s3, v in ex.call_closure(s2, kept[1], args):
+                out.append((s3, v))
+    return out
+
+
+def ite_value(cond, a, b):
+    """value-level if-then-else (used to guard the effects of a summarised, conditionally executed step)"""
+    if a is b:
+        return a
+    if z3.is_expr(a) and z3.is_expr(b):
+        return z3.If(cond, a, b)
+    if isinstance(a, EnumV) and isinstance(b, EnumV):
+        da = bv(a.disc) if isinstance(a.disc, int) else a.disc
+        db = bv(b.disc) if isinstance(b.disc, int) else b.disc
+        e = EnumV(a.ty or b.ty, z3.simplify(z3.If(cond, da, db)), a.name)
+        for var in set(a.payloads) | set(b.payloads):
+            oa, ob_ = a.payloads.get(var), b.payloads.get(var)
+            if oa is None or ob_ is None:
+                e.payloads[var] = oa if oa is not None else ob_
+                continue
+            o = Obj(oa.ty, oa.name, 'variant')
+            for i in set(oa.fields) | set(ob_.fields):
+                ca, cb = oa.fields.get(i), ob_.fields.get(i)
+                if ca is None or cb is None:
+                    o.fields[i] = ca if ca is not None else cb
+                else:
+                    o.fields[i] = Cell(ite_value(cond, ca.val, cb.val))
+            e.payloads[var] = o
+        return e
+    if isinstance(a, Obj) and isinstance(b, Obj) and a.kind == b.kind and a.kind in ('tuple', 'struct', 'variant'):
+        o = Obj(a.ty, a.name, a.kind)
+        for i in set(a.fields) | set(b.fields):
+            ca, cb = a.fields.get(i), b.fields.get(i)
+            if ca is None or cb is None:
+                o.fields[i] = ca if ca is not None else cb
+            else:
+                o.fields[i] = Cell(ite_value(cond, ca.val, cb.val))
+        return o
+    return a
